@@ -22,26 +22,36 @@ func (d Dict) render(f *File, w io.Writer, s *Statement) error {
 	first := true
 	// must order keys to ensure repeatable source
 	type kv struct {
-		k Code
-		v Code
+		key   string
+		value string
+		k     Code
+		v     Code
 	}
-	lookup := map[string]kv{}
-	keys := []string{}
+	keys := []kv{}
 	for k, v := range d {
 		if k.isNull(f) || v.isNull(f) {
 			continue
 		}
-		buf := &bytes.Buffer{}
-		if err := k.render(f, buf, nil); err != nil {
+		kbuf := &bytes.Buffer{}
+		if err := k.render(f, kbuf, nil); err != nil {
 			return err
 		}
-		keys = append(keys, buf.String())
-		lookup[buf.String()] = kv{k: k, v: v}
+		vbuf := &bytes.Buffer{}
+		if err := v.render(f, vbuf, nil); err != nil {
+			return err
+		}
+		keys = append(keys, kv{key: kbuf.String(), value: vbuf.String(), k: k, v: v})
 	}
-	sort.Strings(keys)
+	// pairs with identical key text are kept apart and ordered by their value text
+	sort.Slice(keys, func(i, j int) bool {
+		if keys[i].key != keys[j].key {
+			return keys[i].key < keys[j].key
+		}
+		return keys[i].value < keys[j].value
+	})
 	for _, key := range keys {
-		k := lookup[key].k
-		v := lookup[key].v
+		k := key.k
+		v := key.v
 		if first && len(keys) > 1 {
 			if _, err := w.Write([]byte("\n")); err != nil {
 				return err
